@@ -1786,6 +1786,14 @@ class SQLModel:
                 )
         # TODO: put common sub-expression control object here and pass into converters
         temp_id_source = [0]
+        # generated step names end in a number: start above every number a table name ends in,
+        # so no generated name (a common table expression in WITH form) can shadow a table
+        for table_name in ops.get_tables().keys():
+            trailing_number = re.search(r"_([0-9]+)$", table_name)
+            if trailing_number is not None:
+                temp_id_source[0] = max(
+                    temp_id_source[0], int(trailing_number.group(1)) + 1
+                )
         near_sql = ops.to_near_sql_implementation_(
             db_model=self, using=None, temp_id_source=temp_id_source
         )
